@@ -169,6 +169,19 @@ def big_set_member(ex, container, x, st):
     return f(x.z)
 
 
+# ---------------------------------------------------------------------------------------------- opaque library objects (registry.py)
+OBJ_ATTRS = {("modinfo", "name"): "str"}
+INTROSPECTION_ASSUMED = ("pkgutil.iter_modules / importlib.import_module / inspect.getmembers / hasattr are total and deterministic: the module infos of a package path, the module a name "
+                         "imports to, the (name, object) members of a module and whether an object carries an attribute are uninterpreted functions of their arguments")
+
+
+def objref_attr(ex, obj, attr, st):
+    kind = OBJ_ATTRS.get((obj.cls, attr))
+    if kind == "str":
+        return VStr(uf(ex, f"ATTR_{obj.cls}_{attr}", I, S)(obj.z))
+    raise Unsupported(f"attribute {attr} of an opaque {obj.cls}")
+
+
 # ---------------------------------------------------------------------------------------------- JSON objects (json_conversion.py)
 JSON_ASSUMED = ("JSON objects are finite immutable records with the six keys of node_to_dict, each of the type node_to_dict gives it (str, hex str, str, int, int, list of such objects); "
                 "a dict display with exactly these keys allocates such a record; bytes.hex / bytes.fromhex are inverse on the image of hex")
@@ -421,6 +434,13 @@ def _replace_all(s, a, b):
 def list_method(ex, recv, name, args, kwargs, st, recv_node):
     if name == "append":
         x = args[0]
+        if isinstance(x, VObjRef):
+            if recv.ek is None:
+                recv = VList(z3.K(I, z3.IntVal(0)), recv.n, "obj:" + x.cls, recv.owner)
+            if recv.ek != "obj:" + x.cls:
+                raise Unsupported(f"append of an opaque {x.cls} to list[{recv.ek}]")
+            ex.store_back(recv_node, VList(z3.Store(recv.arr, recv.n, x.z), recv.n + 1, recv.ek, recv.owner), st)
+            return VNone()
         if recv.ek is None:
             ek = {"int": "int", "bytes": "bytes", "ref": "ref", "str": "str"}.get(x.kind)
             if ek is None:
@@ -485,7 +505,39 @@ def call_py(ex, obj, name, node, st):
         vals = sorted(set(d.values()))
         st.fact(z3.Or(r == args[1].z, *[r == z3.StringVal(v) for v in vals]))
         return VStr(r)
+    import importlib as _importlib
+    import inspect as _inspect
+    import pkgutil as _pkgutil
     import struct as _struct
+
+    if obj is _pkgutil.iter_modules:
+        ex.assumed.add(INTROSPECTION_ASSUMED)
+        n = uf(ex, "N_MODULES", I)()
+        st.fact(n >= 0)
+        return VList(uf(ex, "MODULES", ArrII)(), n, "obj:modinfo")
+    if obj is _importlib.import_module:
+        ex.assumed.add(INTROSPECTION_ASSUMED)
+        args, _kw = ex.eval_args(node, st)
+        if not isinstance(args[0], VStr):
+            raise Unsupported("import_module of a non-str")
+        return VObjRef("module", uf(ex, "IMPORTED", S, I)(args[0].z))
+    if obj is _inspect.getmembers:
+        ex.assumed.add(INTROSPECTION_ASSUMED)
+        args, _kw = ex.eval_args(node, st)
+        if not (isinstance(args[0], VObjRef) and args[0].cls == "module"):
+            raise Unsupported("inspect.getmembers of something other than an imported module")
+        n = uf(ex, "N_MEMBERS", I, I)(args[0].z)
+        st.fact(n >= 0)
+        return VList(uf(ex, "MEMBERS", I, ArrII)(args[0].z), n, "obj:member")
+    if obj is builtins.hasattr:
+        args, _kw = ex.eval_args(node, st)
+        nm = z3.simplify(args[1].z) if isinstance(args[1], VStr) else None
+        if not isinstance(args[0], VObjRef) or nm is None or not z3.is_string_value(nm):
+            raise Unsupported("hasattr outside the supported form (opaque object, constant name)")
+        ex.assumed.add(INTROSPECTION_ASSUMED)
+        return VBool(uf(ex, "HASATTR_" + nm.as_string(), I, B)(args[0].z))
+    if obj is builtins.set and len(node.args) == 1 and isinstance(node.args[0], ast.Name) and isinstance(st.store.get(node.args[0].id), VObj) and st.store[node.args[0].id].cls == "strs":
+        return st.store[node.args[0].id]  # set(xs) of an iterable of strings: the same members, empty exactly when xs is
 
     if obj is _struct.unpack_from:
         # struct.unpack_from(fmt, buffer, offset) for the little-endian 32-bit format: needs offset >= 0 and 4 bytes; yields one unsigned 32-bit integer
